@@ -60,6 +60,8 @@ enum Fault {
     NoEpoch0,
     FirstMarkerTop,
     LeftoverBlock,
+    /// one marker's counter with one of its low four bits flipped (it may then read 0, or k+2 before k+1)
+    FlipMarkerBit,
 }
 
 /// One board's stream from the hardware model. Returns the items in FIFO order.
@@ -109,6 +111,15 @@ fn board_stream(rng: &mut Rng, wraps: u64, fault: Fault) -> Vec<Item> {
             items.push(Item::Marker { counter: c as u32, top });
             if Some(c) == dup_at {
                 items.push(Item::Marker { counter: c as u32, top });
+            }
+        }
+    }
+    if fault == Fault::FlipMarkerBit {
+        let marks: Vec<usize> = items.iter().enumerate().filter(|(_, i)| matches!(i, Item::Marker { .. })).map(|(k, _)| k).collect();
+        if !marks.is_empty() {
+            let k = marks[rng.below(marks.len() as u64) as usize];
+            if let Item::Marker { counter, .. } = &mut items[k] {
+                *counter ^= 1 << rng.below(4);
             }
         }
     }
@@ -191,7 +202,8 @@ pub fn generate(s: &mut Session, thorough: bool) -> bool {
     let nruns = if thorough { 4000 } else { 200 };
     let root = scratch_dir("c20");
     let faults = [Fault::None, Fault::None, Fault::None, Fault::DropMarker, Fault::DupMarker, Fault::TruncatedTail,
-        Fault::Junk, Fault::NoEpoch0, Fault::FirstMarkerTop, Fault::LeftoverBlock, Fault::Junk, Fault::None, Fault::Junk];
+        Fault::Junk, Fault::NoEpoch0, Fault::FirstMarkerTop, Fault::LeftoverBlock, Fault::Junk, Fault::None, Fault::Junk,
+        Fault::FlipMarkerBit, Fault::FlipMarkerBit];
     let mut n_rows = 0usize;
     let mut n_times = 0usize;
     for r in 0..nruns {
@@ -365,6 +377,7 @@ pub fn generate(s: &mut Session, thorough: bool) -> bool {
                 Fault::NoEpoch0 => "no-epoch0-marker",
                 Fault::FirstMarkerTop => "first-marker-top-bit",
                 Fault::LeftoverBlock => "incomplete-scalers-block",
+                Fault::FlipMarkerBit => "marker-counter-bit-flip",
             };
             s.push_oracle(gen, req, imp.trim_end().to_string(), why.map(|w| format!("{w} [seed {} run {r} board {board}]", s.seed)));
         }
